@@ -204,14 +204,15 @@ def run(eng, p):
         nsteps = eng.pick([1, 2] + ([3] if p.get("steps3") else []), "steps") if len(part) > 1 else 1
         groups = [part] if nsteps == 1 else ([part[:1], part[1:]] if nsteps == 2 else [part[:1], part[1:2], part[2:]])
         groups = [g for g in groups if g]
-        s = rel
-        for g in groups:
-            s = s.slice({n: asg[n] for n in g})
         rest = [n for n in dims if n not in part]
         if kind == "cond_zero":
             cvar = eng.notes.get("cvar")
             # listed finding: false condition sliced away while consequence variables remain
             regs = regs + region(eng, "C11-conditional-slice-zeroary", cvar in part and not asg[cvar] and (bool(rest) or len(groups) > 1))
+        s = rel
+        for g in groups:
+            s = s.slice({n: asg[n] for n in g})
+        rest = [n for n in dims if n not in part]
         sdims = [v.name for v in s.dimensions]
         eng.notes["outcome"].update({"part": part, "steps": len(groups), "sdims": sdims})
         eng.prove(sorted(sdims) == sorted(rest) and (kind != "matrix" or sdims == rest),
